@@ -38,6 +38,9 @@ EXEMPT_HITS = {}        # "driver.arg" -> number of calls in which the exempt (d
 ERRORS = {}             # driver -> number of calls that raised (an exception is not a mutation)
 TIMES = {}              # phase -> seconds (reported in the evidence)
 SKIP = set()            # drivers whose target does not exist in this tree (d["needs"])
+SHARE_HITS = {}         # driver -> number of calls whose return value shared memory with a (non-exempt) argument
+RET_STATIC = {}         # driver -> ids of the parameters the RETURN VALUE may share memory with (verified analysis, evaluated in Coq)
+PARAM_ID = {}           # driver -> {parameter name: id in its skeleton}
 DYN_CHANGED = {}        # driver -> first case in which a non-exempt argument changed
 
 
@@ -257,6 +260,41 @@ def snap63(hexdata, meta):
     return "(%s, %s)" % (chunks63(bytes.fromhex(hexdata)), chunks63(meta.encode("utf-8")))
 
 
+def arrays_in(obj, depth=0):
+    """the ndarrays reachable from a returned value (tuples, lists, dicts, one level of object attributes)"""
+    import numpy as np
+    if isinstance(obj, np.ndarray):
+        return [obj]
+    if depth > 3:
+        return []
+    out = []
+    if isinstance(obj, (tuple, list)):
+        for x in obj:
+            out += arrays_in(x, depth + 1)
+    elif isinstance(obj, dict):
+        for x in obj.values():
+            out += arrays_in(x, depth + 1)
+    elif hasattr(obj, "__dict__") and not isinstance(obj, type) and depth < 2:
+        for x in vars(obj).values():
+            out += arrays_in(x, depth + 1)
+    return out
+
+
+def shares(res, a):
+    """does the returned value share memory with argument a (same underlying buffer, overlapping bytes)?"""
+    import numpy as np
+    for r in arrays_in(res):
+        if r.dtype.hasobject or a.dtype.hasobject:
+            continue
+        try:
+            if np.shares_memory(r, a, max_work=100000):
+                return True
+        except Exception:
+            if np.may_share_memory(r, a):
+                return True
+    return False
+
+
 def variants(d, ctx, full):
     """the argument matrix of one driver"""
     orders = ["native", "swapped"] + (["mixed"] if d["dt"] == drv.REC else [])
@@ -344,6 +382,7 @@ class Dyn(Entry):
                 args[p] = path
         before = {p: snapshot(args[p]) for p in arr}
         err = None
+        res = None
         sink = io.StringIO()
         try:
             with contextlib.redirect_stdout(sink), contextlib.redirect_stderr(sink), np.errstate(all="ignore"):
@@ -352,6 +391,9 @@ class Dyn(Entry):
             err = "%s: %s" % (type(e).__name__, str(e)[:80])
         after = {p: snapshot(args[p]) for p in arr}
         out = {"error": err, "args": {}, "exempt_changed": []}
+        out["ret_shares"] = sorted(p for p in arr if p not in d["exempt"] and err is None and shares(res, args[p]))
+        if out["ret_shares"]:
+            SHARE_HITS[c["driver"]] = SHARE_HITS.get(c["driver"], 0) + 1
         for p in arr:
             if p in d["exempt"]:
                 if before[p] != after[p]:
@@ -371,7 +413,11 @@ class Dyn(Entry):
         for p in sorted(out["args"]):
             b0, m0, b1, m1 = out["args"][p]
             pairs.append("(%s, %s)" % (snap63(b0, m0), snap63(b1, m1)))
-        return "v_dynamic63 %s [%s]" % (cbool(STATIC_OK.get(c["driver"], False)), "; ".join(pairs))
+        ok = STATIC_OK.get(c["driver"], False)
+        pid = PARAM_ID.get(c["driver"], {})
+        obs = [pid[p] for p in out.get("ret_shares", []) if p in pid]
+        return "v_dynamic_alias %s [%s] [%s] [%s]" % (cbool(ok), "; ".join("%d" % k for k in RET_STATIC.get(c["driver"], [])),
+                                                    "; ".join("%d" % k for k in obs), "; ".join(pairs))
 
     def nontrivial(self, c, out):
         # DESIGN 2.3: the argument needs an internal conversion (non-native, strided or non-f8)
@@ -466,6 +512,35 @@ def static_step(ctx, only=None):
         ctx.count("static:%s" % ("discharged" if ok else "FAILED"))
         if not ok:
             failed.append(n)
+    # the alias part of the model: which parameters may the RETURN VALUE of each driver share memory with?
+    t0 = time.time()
+    okn = [n for n in names if STATIC_OK.get(n) and "error" not in ex[n]]
+    terms, okn2 = [], []
+    for n in okn:
+        r = ex[n]
+        rid = [k for k, v in r["names"].items() if v == "0:<ret>"]
+        inv_names = {v: k for k, v in r["names"].items()}
+        PARAM_ID[n] = {p: inv_names["0:" + p] for p in r["checked"] if "0:" + p in inv_names}
+        if not rid:
+            RET_STATIC[n] = []           # the driver returns nothing
+            continue
+        okn2.append(n)
+        terms.append("ret_alias %s [%s] %d" % (r["coq"], "; ".join(map(str, r["params"])), rid[0]))
+    try:
+        vals = core.coq_eval(os.path.join(ctx.work, "retalias"), PRE_STATIC + "Open Scope positive_scope.\n", terms, ty="list Z", shard=10, tag="ret")
+        for n, v in zip(okn2, vals):
+            RET_STATIC[n] = [int(x.replace("%Z", "").strip("() ")) for x in v.strip("[]").split(";") if x.strip()]
+        ctx.obligation("ret_alias evaluated for %d drivers" % len(okn2), True)
+    except core.CoqEvalError as e:
+        ctx.obligation("ret_alias evaluated for %d drivers" % len(okn2), False, str(e)[-400:])
+        for n in okn2:
+            RET_STATIC[n] = [int(k) for k in ex[n]["params"]]       # no prediction: everything allowed
+    ctx.count("ret_alias:drivers_whose_result_may_alias_an_argument", sum(1 for n in okn2 if RET_STATIC.get(n)))
+    st = os.environ.get("C15_SELFTEST", "")
+    if st.startswith("drop-ret:"):          # self-test of the alias correspondence: forget the prediction for one driver
+        RET_STATIC[st.split(":", 1)[1]] = []
+        ctx.notes.append("SELFTEST: predicted return aliases of %s dropped" % st.split(":", 1)[1])
+    TIMES["static:ret_alias"] = round(time.time() - t0, 1)
     # why did it fail?
     why = {}
     if failed:
@@ -612,6 +687,8 @@ def run(ctx, replay=None):
         ctx.count("exempt_argument_changed:" + k, v)
     for k, v in sorted(ERRORS.items()):
         ctx.count("calls_raised:" + k, v)
+    ctx.count("ret_alias:calls_whose_result_shared_memory_with_an_argument", sum(SHARE_HITS.values()))
+    ctx.count("ret_alias:drivers_observed_sharing", len(SHARE_HITS))
     # cross-check static <-> dynamic.  The runner reports ONE failing input per entry and class; every driver in
     # which the dynamic run saw a non-exempt argument change (DYN_CHANGED, recorded by impl) has a failing input
     dyn_fail = set(DYN_CHANGED)
